@@ -19,9 +19,9 @@ Fixpoint rok (e : env) (r : rdesc) : Prop :=
   | _ => True
   end.
 
-Definition ev_ok (e : env) (v : event) : Prop :=
-  match v with EAlloc r => rok e r | EIns (IApush r) => rok e r | _ => True end.
-Definition evs_ok (e : env) (evs : list event) : Prop := Forall (ev_ok e) evs.
+Definition ev_ok (Pr : rdesc -> Prop) (v : event) : Prop :=
+  match v with EAlloc r => Pr r | EIns (IApush r) => Pr r | _ => True end.
+Definition evs_ok (Pr : rdesc -> Prop) (evs : list event) : Prop := Forall (ev_ok Pr) evs.
 
 Ltac eok := unfold evs_ok, gbump, push_int, ins, ev in *;
   repeat first [assumption | apply Forall_app; split | apply Forall_cons | apply Forall_nil]; simpl; auto.
@@ -32,26 +32,35 @@ Variable e : env.
 Variable ve : venv.
 Hypothesis Hcons : cons_env te e.
 Hypothesis Hve : venv_ok te ve.
-Hypothesis Hrok : forall x r, lookup ve x = Some r -> rok e r.
+(* the property established of every resource referred to: it holds of constants, of the variables' resources, and
+   of a monetary whose asset resource has it and holds an asset *)
+Variable Pr : rdesc -> Prop.
+Hypothesis Pc : forall c, Pr (RConst c).
+Hypothesis Pm : forall ra n, Pr ra -> is_asset_v (denote e ra) -> Pr (RMon ra n).
+Hypothesis Hrok : forall x r, lookup ve x = Some r -> Pr r.
 
-Lemma rok_rvar x t : lookup te x = Some t -> rok e (rvar ve x).
+Ltac eok ::= unfold evs_ok, gbump, push_int, ins, ev in *;
+  repeat first [assumption | apply Forall_app; split | apply Forall_cons | apply Forall_nil]; simpl; auto;
+  try (apply Pm; assumption); try apply Pc.
+
+Lemma rok_rvar x t : lookup te x = Some t -> Pr (rvar ve x).
 Proof. intros H. destruct (Hve _ _ H) as [r [H1 _]]. unfold rvar. rewrite H1. apply (Hrok _ _ H1). Qed.
 
-Lemma rok_acc a : chk_acc te a = true -> rok e (res_acc ve a) /\ is_account_v (denote e (res_acc ve a)).
+Lemma rok_acc a : chk_acc te a = true -> Pr (res_acc ve a) /\ is_account_v (denote e (res_acc ve a)).
 Proof.
   intros H. split.
-  - destruct a as [s|x]; simpl; [exact I|]. apply (rok_rvar x _ (has_ty_lookup te _ _ H)).
+  - destruct a as [s|x]; simpl; [apply Pc|]. apply (rok_rvar x _ (has_ty_lookup te _ _ H)).
   - rewrite (denote_acc te e ve Hcons Hve a H). eexists. reflexivity.
 Qed.
 
-Lemma rok_asset a : chk_asset te a = true -> rok e (res_asset ve a) /\ is_asset_v (denote e (res_asset ve a)).
+Lemma rok_asset a : chk_asset te a = true -> Pr (res_asset ve a) /\ is_asset_v (denote e (res_asset ve a)).
 Proof.
   intros H. split.
-  - destruct a as [s|x]; simpl; [exact I|]. apply (rok_rvar x _ (has_ty_lookup te _ _ H)).
+  - destruct a as [s|x]; simpl; [apply Pc|]. apply (rok_rvar x _ (has_ty_lookup te _ _ H)).
   - rewrite (denote_asset te e ve Hcons Hve a H). eexists. reflexivity.
 Qed.
 
-Lemma ok_mon b m : chk_mon te m = true -> evs_ok e (gen_mon ve b m).
+Lemma ok_mon b m : chk_mon te m = true -> evs_ok Pr (gen_mon ve b m).
 Proof.
   induction m as [a n|x|l IHl r IHr|l IHl r IHr]; simpl; intros H.
   - apply andb_prop in H. destruct H as [Ha _]. destruct (rok_asset a Ha) as [R1 R2]. destruct b; eok.
@@ -60,33 +69,33 @@ Proof.
   - apply andb_prop in H. destruct H as [H _]. apply andb_prop in H. destruct H as [H1 H2]. destruct b; eok.
 Qed.
 
-Lemma rok_mon_res m : chk_mon te m = true -> rok e (mon_res ve m).
+Lemma rok_mon_res m : chk_mon te m = true -> Pr (mon_res ve m).
 Proof.
-  intros H. pose proof (chk_mon_leftmost te m H) as Hl. unfold mon_res. destruct (leftmost m) as [a n|x| |]; simpl in Hl |- *; try exact I.
-  - apply andb_prop in Hl. destruct Hl as [Ha _]. apply (rok_asset a Ha).
+  intros H. pose proof (chk_mon_leftmost te m H) as Hl. unfold mon_res. destruct (leftmost m) as [a n|x| |]; simpl in Hl |- *; try apply Pc.
+  - apply andb_prop in Hl. destruct Hl as [Ha _]. destruct (rok_asset a Ha) as [R1 R2]. apply Pm; assumption.
   - apply (rok_rvar x _ (has_ty_lookup te _ _ Hl)).
 Qed.
 
-Lemma ok_val v : chk_val te v = true -> evs_ok e (gen_val ve v).
+Lemma ok_val v : chk_val te v = true -> evs_ok Pr (gen_val ve v).
 Proof.
   destruct v; simpl; intros H; try (eok; fail).
   - apply (ok_mon true m H).
   - unfold declared in H. destruct (lookup te x) as [t|] eqn:E; [|discriminate]. pose proof (rok_rvar x t E). eok.
 Qed.
 
-Lemma ok_after_take_max fb d : (forall fa, fb = Some fa -> chk_acc te fa = true) -> evs_ok e (gen_after_take_max ve fb d).
+Lemma ok_after_take_max fb d : (forall fa, fb = Some fa -> chk_acc te fa = true) -> evs_ok Pr (gen_after_take_max ve fb d).
 Proof.
   intros H. unfold gen_after_take_max. destruct fb as [fa|]; [destruct (rok_acc fa (H fa eq_refl)) as [R _]; eok|destruct d; eok].
 Qed.
 
-Lemma ok_take_from_source fb : (forall fa, fb = Some fa -> chk_acc te fa = true) -> evs_ok e (gen_take_from_source ve fb).
+Lemma ok_take_from_source fb : (forall fa, fb = Some fa -> chk_acc te fa = true) -> evs_ok Pr (gen_take_from_source ve fb).
 Proof.
   intros H. unfold gen_take_from_source. destruct fb as [fa|]; [|eok]. apply Forall_app. split; [eok|apply ok_after_take_max; assumption].
 Qed.
 
-Lemma ok_source pa : evs_ok e pa ->
-  (forall s isAll r, chk_source te isAll s = Some r -> evs_ok e (gen_source ve pa s)) /\
-  (forall l isAll em r, chk_sources te isAll l em = Some r -> evs_ok e (gen_sources ve pa l)).
+Lemma ok_source pa : evs_ok Pr pa ->
+  (forall s isAll r, chk_source te isAll s = Some r -> evs_ok Pr (gen_source ve pa s)) /\
+  (forall l isAll em r, chk_sources te isAll l em = Some r -> evs_ok Pr (gen_sources ve pa l)).
 Proof.
   intros Hpa. apply source_mutind.
   - intros a o isAll r H. simpl in H. destruct (chk_acc te a) eqn:Ea; [|discriminate]. simpl in H. destruct (rok_acc a Ea) as [R _].
@@ -105,20 +114,20 @@ Proof.
     destruct l as [|s2 l2]; [constructor|]. destruct (is_some fb); [discriminate|]. apply (IHl _ _ _ H).
 Qed.
 
-Lemma ok_portions ps : forallb (chk_portion te) ps = true -> evs_ok e (map (gen_portion ve) ps).
+Lemma ok_portions ps : forallb (chk_portion te) ps = true -> evs_ok Pr (map (gen_portion ve) ps).
 Proof.
   induction ps as [|p tl IH]; simpl; intros H; [constructor|]. apply andb_prop in H. destruct H as [Hp H]. constructor; [|apply IH; assumption].
-  destruct p as [q|x|]; simpl; try exact I. apply (rok_rvar x _ (has_ty_lookup te _ _ Hp)).
+  destruct p as [q|x|]; simpl; try apply Pc. apply (rok_rvar x _ (has_ty_lookup te _ _ Hp)).
 Qed.
 
-Lemma ok_allotment ps : chk_portions te ps = true -> evs_ok e (gen_allotment ve ps).
+Lemma ok_allotment ps : chk_portions te ps = true -> evs_ok Pr (gen_allotment ve ps).
 Proof.
   intros H. unfold gen_allotment. apply Forall_app. split; [|eok]. apply ok_portions. apply forallb_forall. intros p Hp.
   apply in_rev in Hp. pose proof (chk_portions_each te _ H) as Ha. rewrite forallb_forall in Ha. auto.
 Qed.
 
-Lemma ok_alloc_sources pa : evs_ok e pa -> forall l i,
-  forallb (fun ps => is_some (chk_source te false (snd ps))) l = true -> evs_ok e (gen_alloc_sources ve pa i l).
+Lemma ok_alloc_sources pa : evs_ok Pr pa -> forall l i,
+  forallb (fun ps => is_some (chk_source te false (snd ps))) l = true -> evs_ok Pr (gen_alloc_sources ve pa i l).
 Proof.
   intros Hpa. induction l as [|[p s] tl IH]; intros i H; simpl; [constructor|]. simpl in H. apply andb_prop in H. destruct H as [Hs H].
   destruct (chk_source te false s) as [r0|] eqn:Es; [|discriminate].
@@ -127,10 +136,10 @@ Proof.
 Qed.
 
 Lemma ok_dest :
-  (forall d, chk_dest te d = true -> evs_ok e (gen_dest ve d)) /\
-  (forall k, chk_kod te k = true -> evs_ok e (gen_kod ve k)) /\
-  (forall l, chk_dmaxes te l = true -> evs_ok e (gen_dmaxes ve l)) /\
-  (forall l, chk_dallots te l = true -> evs_ok e (gen_dallots ve l)).
+  (forall d, chk_dest te d = true -> evs_ok Pr (gen_dest ve d)) /\
+  (forall k, chk_kod te k = true -> evs_ok Pr (gen_kod ve k)) /\
+  (forall l, chk_dmaxes te l = true -> evs_ok Pr (gen_dmaxes ve l)) /\
+  (forall l, chk_dallots te l = true -> evs_ok Pr (gen_dallots ve l)).
 Proof.
   apply dest_mutind.
   - intros a H. simpl in H. destruct (rok_acc a H) as [R _]. simpl. eok.
@@ -146,19 +155,19 @@ Proof.
   - intros p k IHk l IHl H. simpl in H. apply andb_prop in H. destruct H as [H1 H2]. pose proof (IHk H1). pose proof (IHl H2). simpl gen_dallots. eok.
 Qed.
 
-Lemma ok_stmt s : chk_stmt te s = true -> evs_ok e (gen_stmt ve s).
+Lemma ok_stmt s : chk_stmt te s = true -> evs_ok Pr (gen_stmt ve s).
 Proof.
   destruct s as [m vs d|a src d|key v|a key v|m a|a acc|]; simpl; intros H.
   - apply andb_prop in H. destruct H as [H Hd]. apply andb_prop in H. destruct H as [Hm Hvs].
     pose proof (ok_mon false m Hm). pose proof (ok_mon true m Hm). pose proof (proj1 ok_dest d Hd). pose proof (rok_mon_res m Hm) as Hr.
-    assert (evs_ok e [ev true (mon_res ve m); ins IAsset]) as Hpa by eok.
+    assert (evs_ok Pr [ev true (mon_res ve m); ins IAsset]) as Hpa by eok.
     destruct vs as [src|l]; simpl in Hvs.
     + destruct (chk_source te false src) as [r0|] eqn:Es; [|discriminate].
       pose proof (proj1 (ok_source _ Hpa) _ _ _ Es). pose proof (ok_take_from_source (fallback_of src) (proj1 (chk_fallback te) _ _ _ Es)). eok.
     + apply andb_prop in Hvs. destruct Hvs as [Hp Hss]. pose proof (ok_allotment _ Hp). pose proof (ok_alloc_sources _ Hpa l 0 Hss). eok.
   - apply andb_prop in H. destruct H as [H Hd]. apply andb_prop in H. destruct H as [Ha Hs].
     destruct (chk_source te true src) as [r0|] eqn:Es; [|discriminate]. destruct (rok_asset a Ha) as [R _].
-    assert (evs_ok e [ev true (res_asset ve a)]) as Hpa by eok.
+    assert (evs_ok Pr [ev true (res_asset ve a)]) as Hpa by eok.
     pose proof (proj1 (ok_source _ Hpa) _ _ _ Es). pose proof (proj1 ok_dest d Hd). destruct (src_plain src); eok.
   - pose proof (ok_val v H). eok.
   - apply andb_prop in H. destruct H as [Hv Ha]. pose proof (ok_val v Hv). destruct (rok_acc a Ha) as [R _]. eok.
